@@ -176,6 +176,19 @@ def is_other_solution(alt, ref, sn, angles, vdl):
     PQ buses and its real part at the PV buses within 1e-6 p.u.; if the internal data are not available: Newton-Raphson
     started from the result tables converges at once to the same voltages."""
     import pandapower as pp
+    # only a different point counts: with the same bus voltages as the reference, differing results are an extraction error
+    ok = ~(np.isnan(alt.res_bus.vm_pu.values) | np.isnan(ref.res_bus.vm_pu.values))
+    dv = np.abs(alt.res_bus.vm_pu.values[ok] - ref.res_bus.vm_pu.values[ok])
+    da = np.abs((alt.res_bus.va_degree.values[ok] - ref.res_bus.va_degree.values[ok] + 180.0) % 360.0 - 180.0)
+    same = not ok.any() or (dv.max() < 1e-5 and np.nanmax(da) < 1e-3)
+    try:    # auxiliary buses (open-ended branches, star points) are only visible in the internal voltage vector
+        Va, Vr = np.asarray(alt._ppc["internal"]["V"]), np.asarray(ref._ppc["internal"]["V"])
+        if same and Va.shape == Vr.shape and np.abs(Va - Vr).max() > 1e-5:
+            same = False
+    except Exception:
+        pass
+    if same:
+        return False
     internal = alt._ppc.get("internal", {}) if alt._ppc is not None else {}
     if all(k in internal for k in ("V", "Ybus", "bus", "gen", "baseMVA", "pv", "pq")):
         from pandapower.pypower.makeSbus import makeSbus
@@ -278,6 +291,10 @@ def check(case):
     has_pv = any(e["t"] == "gen" and not e.get("slack") and e.get("in_service", True) and e["bus"] in reach for e in recipe["el"])
     interesting = has_pv or loops > 0 or len(slacks) > 1
     res.label("loops:%d" % min(loops, 4))
+    top = max(b["vn_kv"] for b in recipe["buses"])
+    lv_fed = any(e["t"] == "ext_grid" and recipe["buses"][e["bus"]]["vn_kv"] < top for e in recipe["el"][:len(recipe["el"])])
+    if lv_fed:
+        res.label("slack-below-top-level")
     if has_pv:
         res.label("pv-bus")
     if len(slacks) > 1:
@@ -308,6 +325,8 @@ def check(case):
             continue
         returned += 1
         res.label("alt-%s:returned" % alg)
+        if alg == "bfsw" and lv_fed and angles:
+            res.label("bfsw-returned/fed-from-lower-level+angles")
         if a["init"] == "results":
             res.label("init-results")
         lo = min(ref.res_bus.vm_pu.min(), net.res_bus.vm_pu.min())
